@@ -27,6 +27,8 @@ ACC = "DecFileParser._add_charge_conjugate_decays"
 
 
 def run(ctx, ss):
+    from .common import keyword_vocabulary
+    ctx.guard("C03.1", keyword_vocabulary, ss, "C03.1", ('cdecay', 'chargeconj'), ())
     for r, f in (("C03.1", c03_1), ("C03.2", c03_2), ("C03.3", c03_3), ("C03.4", c03_4), ("C03.5", c03_5),
                  ("C03.6", c03_6), ("C03.7", c03_7), ("C03.8", c03_8)):
         ctx.guard(r, f, ss)
